@@ -662,7 +662,9 @@ def _sample_chains_worker(
             if isinstance(exception, AdaptationError):
                 iter_queue.put(None)
             else:
-                chain_outputs.append((chain_index, outputs))
+                # Also return random number generator so its advanced state can be
+                # restored in the parent process
+                chain_outputs.append((chain_index, (*outputs, chain_kwargs["rng"])))
             # If returned handled exception was a manual interrupt put exception
             # on iteration queue to communicate to parent process and break
             if isinstance(exception, KeyboardInterrupt):
@@ -707,6 +709,7 @@ def _sample_chains_parallel(
     with _ignore_sigint_manager() as manager, _pool_context_manager(n_process) as pool:
         results = None
         exception = None
+        rngs = []
         try:
             # Shared queue for workers to output chain progress updates to
             iter_queue = manager.Queue()
@@ -725,6 +728,7 @@ def _sample_chains_parallel(
                     chain_kwargs["chain_traces"],
                 )
                 chain_queue.put((c, n_iter, chain_kwargs))
+                rngs.append(chain_kwargs["rng"])
             # Start n_process worker processes which each have access to the
             # shared queues, returning results asynchronously
             results = pool.starmap_async(
@@ -794,7 +798,12 @@ def _sample_chains_parallel(
             indexed_chain_outputs = [r for res in results.get() for r in res]
             # Sort list by chain index (first element of tuple entries) and
             # then create new list with chain index removed
-            chain_outputs = [outp for i, outp in sorted(indexed_chain_outputs)]
+            chain_outputs = []
+            for i, (*outp, rng) in sorted(indexed_chain_outputs, key=lambda t: t[0]):
+                # Generators are advanced in copies in the worker processes so restore
+                # state here so that a subsequent stage continues the random stream
+                rngs[i].bit_generator.state = rng.bit_generator.state
+                chain_outputs.append(outp)
         else:
             chain_outputs = []
     return (*_collate_chain_outputs(chain_outputs), exception)
